@@ -2,7 +2,7 @@ SPECIFICATION Spec
 CONSTANTS Addrs = {"A1"} Keys = {"K1"} Signers = {"S1", "S2"} OwnSigner = "S1" MaxVer = 2 Datas = {"a", "b"} UData = {"a"}
           Forged = TRUE Sizes = FALSE Multi = FALSE Base = 2 Scale = 1 MaxRot = 0 MaxClock = 1 InitCloser = 7 MaxCloser = 7
           MaxIssued = 1 PeerStore = FALSE Locals = FALSE EqReplaces = TRUE OtherTokens = {} MaxStored = 8
-          KeepSecrets = 2 CleanAll = TRUE
+          KeepSecrets = 2 CleanAll = TRUE Validity = 0 RotatePeriod = 0 ExpiredYields = FALSE
 INVARIANT TypeOK
 INVARIANT StoreNeedsOwnFreshToken
 INVARIANT Limits
